@@ -128,6 +128,7 @@ func init() {
 			{Plugin: "handler-contract", Func: "mobius.HandleSetUser", Kinds: []string{"site"}},
 			{Plugin: "sites", Func: "mobius.NewYAMLAccountManager", Kinds: []string{"site", "inv-step", "inv-init"}},
 			{Plugin: "yamltags", Opts: "hotline.Account"},
+			{Plugin: "sites", Func: "hotline.(*Field).DecodeObfuscatedString", Kinds: []string{"site"}}, {Func: "hotline.EncodeString"},
 			{Plugin: "passwords", Func: "mobius.HandleUpdateUser"},
 			{Func: "hotline.NewAccount"},
 		},
@@ -219,15 +220,17 @@ func init() {
 		Items: []Item{
 			{Plugin: "sites", Func: "hotline.(*Server).handleNewConnection", Kinds: siteKinds},
 			{Plugin: "handler-contract", Func: "mobius.HandleDisconnectUser", Kinds: []string{"site"}},
+			{Plugin: "sites", Func: "hotline.(*ClientConn).Disconnect", Kinds: []string{"site", "post", "inv-step", "inv-init"}},
 			{Plugin: "sites", Func: "mobius.(*BanFile).Add", Kinds: []string{"site", "post", "guarded"}},
 			{Func: "mobius.(*BanFile).IsBanned"},
 		},
 		Decided: []string{
+			"Disconnect removes the client from the registry first, notifies every remaining client once, and closes the connection on every path",
 			"handleNewConnection: the ban lookup follows the handshake; Authenticate (and everything after it) is reachable only if the address is not banned, or its temporary ban has an expiry that time.Now() is not before",
 			"HandleDisconnectUser: option 1 bans the target's own address (strings.Split of the target's RemoteAddr) until now + exactly 30 minutes, option 2 without expiry; bans and the delayed Disconnect only for targets without cannot-be-disconnected (C06)",
 			"BanFile.IsBanned answers exactly from the map; BanFile.Add records the entry, leaves every other address unchanged, writes the marshalled list and returns nil only if the write succeeded; the map is only touched under the mutex",
 		},
-		Undecided: []string{"restart = Load of the YAML file (library round trip assumed)", "Disconnect's own effects (registry delete, notify, Close) not yet under contract", "wall-clock behaviour of time.Now"},
+		Undecided: []string{"restart = Load of the YAML file (library round trip assumed)", "wall-clock behaviour of time.Now"},
 	}
 	plans["C09"] = &Plan{
 		Items: []Item{
@@ -268,7 +271,7 @@ func init() {
 			{Plugin: "handler-contract", Func: "mobius.HandleDownloadFolder", Kinds: []string{"site"}},
 			{Plugin: "handler-contract", Func: "mobius.HandleUploadFolder", Kinds: []string{"site"}},
 			{Plugin: "sites", Func: "hotline.receiveFile", Kinds: siteKinds},
-		}, fnItems(nil, "hotline.CalcItemCount$1", "hotline.(*FileHeader).Read", "hotline.NewFileHeader", "hotline.EncodeFilePath", "hotline.(*FileResumeData).UnmarshalBinary")...),
+		}, fnItems(nil, "hotline.CalcItemCount$1", "hotline.(*FileHeader).Read", "hotline.NewFileHeader", "hotline.EncodeFilePath", "hotline.(*FileResumeData).UnmarshalBinary", "hotline.(*FileTransfer).ItemCount")...),
 		Decided: []string{
 			"both walk callbacks: an entry is counted / gets an item header exactly when the walk reported no error for it and its name does not start with a dot (the download additionally skips the first visited entry, the count subtracts one); neither callback prunes the walk or fails unless the walk or the environment did",
 			"folder download, per entry: header first (FileHeader cursor contract), then on a send or resume choice the size prefix TransferSize(offset), the flattened header, the data fork positioned at the offset and copied to its end; a next-file choice sends nothing more",
@@ -314,8 +317,13 @@ func init() {
 	plans["C13"] = &Plan{
 		Items: append(fnItems(nil, "hotline.(*UserFlags).IsSet", "hotline.(*MemClientMgr).Add", "hotline.(*MemClientMgr).Delete", "hotline.(*MemClientMgr).Get", "hotline.(*MemClientMgr).List"),
 			Item{Plugin: "handler-contract", Func: "mobius.HandleSetClientUserInfo", Kinds: []string{"site"}},
-			Item{Plugin: "sites", Func: "hotline.(*ClientConn).NotifyOthers", Kinds: []string{"site", "inv-step", "inv-init"}}),
+			Item{Plugin: "sites", Func: "hotline.(*ClientConn).NotifyOthers", Kinds: []string{"site", "inv-step", "inv-init"}},
+			Item{Plugin: "sites", Func: "hotline.(*ClientConn).Disconnect", Kinds: []string{"site", "post", "inv-step", "inv-init"}},
+			Item{Plugin: "sites", Func: "hotline.(*ClientConn).SendAll", Kinds: []string{"site", "inv-step", "inv-init"}},
+			Item{Plugin: "sites", Func: "hotline.(*Server).SendAll", Kinds: []string{"site", "inv-step", "inv-init"}},
+			Item{Plugin: "sites", Func: "hotline.(*ClientConn).handleTransaction", Kinds: []string{"site", "inv-step", "inv-init", "guarded"}}),
 		Decided: []string{
+			"Disconnect removes exactly the leaving client from the registry before the user-left notices are built, sends one notice (type 302, field 103 = its ID) per remaining client, and closes the connection on every path; SendAll (both) builds one transaction of the given type per registered client, addressed to it, and sends each; handleTransaction forwards every transaction the handler returns and resets the idle timer under the mutex",
 			"NotifyOthers (user joined / changed / left notices): every entry of the client list whose ID differs from the sender's gets one copy, and no one else does (per-iteration reach obligation)",
 			"HandleSetClientUserInfo: with the options field present the automatic reply is cleared when its bit is clear and set to the request's text when it is set",
 			"MemClientMgr.Add: the ID assigned is not held by any registered client, for every value of the 32-bit counter (also across the 16-bit wrap); the new client is registered under it; every other entry is unchanged",
